@@ -5,6 +5,9 @@ package main
 // fabricated key tuples and row ids, records every call's outcome and the pins it left behind.
 
 import (
+	"github.com/spaolacci/murmur3"
+	"github.com/ryogrid/SamehadaDB/lib/common"
+	"encoding/binary"
 	"github.com/ryogrid/SamehadaDB/lib/samehada/samehada_util"
 	"fmt"
 	"math"
@@ -93,6 +96,41 @@ func buildKeyTab(typ string, long bool) []types.Value {
 		}
 	}
 	keyTabs[name] = out
+	return out
+}
+
+// collidingKeys: 48 integers in 8 groups of 6 whose hash-table home slot (block and offset) coincides, so that the
+// linear probing of the hash index really walks chains, over tombstones and across a wrapped block boundary, instead of
+// finding every key in its home slot.  The home slot is computed from the bytes the index itself hashes.
+func collidingKeys(x *idxEnv) []types.Value {
+	tm := x.s.e.Catalog().GetTableByName(x.t.name)
+	period := uint64(common.BucketSizeOfHashIndex) * uint64(page.BlockArraySize) // (a multiple of both moduli)
+	groups := map[uint64][]int32{}
+	out := []types.Value{}
+	var full []uint64
+	for i := int32(1); i < 4000000 && len(full) < 8; i++ {
+		v := types.NewInteger(i)
+		kb := tuple.GenTupleForIndexSearch(tm.Schema(), 0, &v).GetValueInBytes(tm.Schema(), 0)
+		h := murmur3.New128()
+		h.Write(kb)
+		hv := binary.LittleEndian.Uint64(h.Sum(nil))
+		home := (hv%uint64(common.BucketSizeOfHashIndex))*1000 + hv%uint64(page.BlockArraySize)
+		_ = period
+		if len(groups[home]) < 6 {
+			groups[home] = append(groups[home], i)
+			if len(groups[home]) == 6 {
+				full = append(full, home)
+			}
+		}
+	}
+	vals := []int32{}
+	for _, hm := range full {
+		vals = append(vals, groups[hm]...)
+	}
+	sort.Slice(vals, func(i, j int) bool { return vals[i] < vals[j] })
+	for _, v := range vals {
+		out = append(out, types.NewInteger(v))
+	}
 	return out
 }
 
@@ -232,6 +270,11 @@ func idxDriver(args []string) error {
 		}
 		x := &idxEnv{s: s, t: t, kind: kind, typ: typ, keys: buildKeyTab(typ, long), q: q}
 		x.idx = s.e.Catalog().GetTableByName(t.name).GetIndex(0)
+		if kind == "hash" && typ == "int" {
+			if ck := collidingKeys(x); len(ck) == nKeys {
+				x.keys = ck
+			}
+		}
 		x.ff = ffKeyRanks(x.keys)
 		live := map[int]int{} // rid id -> key rank
 		byKey := map[int][]int{}
